@@ -93,13 +93,57 @@ def run_case(impl: str, h, case, vb: VB) -> int:
     return n
 
 
+def width_cases():
+    """Second family: the interrupt mask is rewritten either by two byte stores (TXD, then IMR) or by one word store that
+    begins one byte below it; a request was already standing in ISR.  Same bytes, same instruction and cycle count."""
+    for imr0 in (0x80, 0x00, 0x0F):
+        for imr1 in (0x8F, 0x82, 0x81, 0x0F):
+            for isr0 in (0x02, 0x01, 0x08, 0x03):
+                yield ("width", imr0, imr1, isr0)
+
+
+def run_width(impl: str, h, case, vb: VB) -> int:
+    _, imr0, imr1, isr0 = case
+    sled = bytes.fromhex("00" * 10) + bytes([0x13, 11])
+    progs = {"bytes": bytes([0xCC, 0xFA, 0x55, 0xCC, 0xFB, imr1]) + sled, "word": bytes([0x00, 0xCD, 0xFA, 0x55, imr1]) + sled}
+    hist = [("step",)] * 10
+    runs = {}
+    for name, code in progs.items():
+        cfg = M.default_cfg(code, bytes.fromhex("0001"), imr=imr0, isr=isr0, timer=(False, 0, 0), kb_press=1, kol=0xFF)
+        runs[name] = M.run_py(cfg, hist) if impl == "python" else M.run_rs(h, cfg, hist)
+    a, b = runs["bytes"], runs["word"]
+    wit = {"book": True, "impl": impl, "case": list(case)}
+    if any("err" in o for o in a + b) or len(a) != len(b):
+        vb.add(f"C07/{impl}/store-width/run-error", f"{impl} {case}: {[o.get('err') for o in a + b if 'err' in o][:1]}", wit)
+        return 2
+    # after the second instruction both runs stand at the sled; a delivery may already have happened there (Rust delivers after the
+    # instruction), so the comparison starts with that very observation and the PC offset of the two layouts (6 vs 5 code bytes) is removed
+    def norm(o, off):
+        regs = dict(o["regs"])
+        if 0xC0000 <= regs["PC"] < 0xC0100:
+            regs["PC"] -= off
+        mem = tuple((base, d) for base, d in o["mem"])
+        return (tuple(sorted(regs.items())), o["imem"], o["power"], len(mem))
+    if imr0 & 0x80 and imr0 & isr0 & 0x0F:
+        return 0          # deliverable from the start: the request is taken before either store, nothing to compare
+    for i in range(1, len(a)):
+        if norm(a[i], 6) != norm(b[i], 5):
+            ra, rb_ = a[i]["regs"], b[i]["regs"]
+            vb.add(f"C07/{impl}/store-width/{'delivery' if (ra['PC'] >= 0xC0100) != (rb_['PC'] >= 0xC0100) else 'state'}",
+                   f"{impl}: IMR {imr0:#04x}->{imr1:#04x} with ISR={isr0:#04x} standing: after step {i + 1} the run that wrote TXD and IMR with two byte stores "
+                   f"is at PC {ra['PC']:#x} IMR={a[i]['imem'][0xFB]:#04x} S={ra['S']:#x}, the run that used one word store at PC {rb_['PC']:#x} "
+                   f"IMR={b[i]['imem'][0xFB]:#04x} S={rb_['S']:#x}", wit)
+            break
+    return 2
+
+
 def shard(args):
     impl, cs = args
     h = rb.harness() if impl == "rust" else None
     vb = VB()
     n = 0
     for c in cs:
-        n += run_case(impl, h, c, vb)
+        n += run_width(impl, h, c, vb) if c[0] == "width" else run_case(impl, h, c, vb)
     return {"n": n, "vb": vb}
 
 
@@ -108,8 +152,11 @@ def replay(w) -> Optional[str]:
     impl = w["impl"]
     h = rb.harness() if impl == "rust" else None
     vb = VB()
-    k, closed, imr, tail = w["case"]
-    run_case(impl, h, (k, bool(closed), imr, tail), vb)
+    if w["case"][0] == "width":
+        run_width(impl, h, tuple(w["case"]), vb)
+    else:
+        k, closed, imr, tail = w["case"]
+        run_case(impl, h, (k, bool(closed), imr, tail), vb)
     for sig, (cnt, wl) in vb.d.items():
         return wl[0][0]
     return None
